@@ -154,6 +154,11 @@ def checkCons (st : St) (d : Dump) (c : String) (at_ : String) : St :=
 
 def fullBand (st : Step) (m : Nat) : Bool := st.bw ≥ m && st.bw ≥ st.query.length
 
+/-- tag of a full band: exactly at the boundary `bandwidth = max(#nodes, |query|)` of the clause, one above, wider -/
+def bandTag (st : Step) (m : Nat) : String :=
+  let mx := max m st.query.length
+  if st.bw = mx then "band=max-len" else if st.bw = mx + 1 then "band=max-len+1" else "band>max-len+1"
+
 def stepCheck (sc : Sc) (xp xs yp ys : Int) (clipsDefault uniq : Bool) (ref : List Nat) (st : St) (idx : Nat) (sp : Step) (g : Grp) : St :=
   if st.stopped || st.bad.isSome then st else
   let at_ := toString idx
@@ -194,13 +199,13 @@ def stepCheck (sc : Sc) (xp xs yp ys : Int) (clipsDefault uniq : Bool) (ref : Li
           | some b =>
             if fullBand sp m then
               if clipsDefault then
-                let st := st.tag "lin-banded-full"
+                let st := (st.tag "lin-banded-full").tag (bandTag sp m)
                 if b ≠ s then st.fail ("banded-score step=" ++ at_ ++ " banded=" ++ toString b ++ " global=" ++ toString s) else st
               else if b ≠ s then st.tag "banded-with-clip-penalties-differs" else st
             else st
       else if linear && sp.mode = "b" && fullBand sp m && clipsDefault then
         let nw := nwFast sc st.cur.labels sp.query
-        let st := st.tag "lin-banded-full"
+        let st := (st.tag "lin-banded-full").tag (bandTag sp m)
         if s ≠ nw then st.fail ("banded-score step=" ++ at_ ++ " optimum=" ++ toString nw ++ " reported=" ++ toString s) else st
       else st
     let st :=
